@@ -2,8 +2,9 @@
 (* Trace validation for Variation: every record of the ndjson file named   *)
 (* by the environment variable TRACE must be a step of the spec.           *)
 (*  kind = "fn":   a helper call; the call must be valid, the logged reply *)
-(*                 must equal the oracle value (DoFn) and satisfy every    *)
-(*                 helper theorem;                                         *)
+(*                 must equal the oracle value (DoFn; for "arith_x" be     *)
+(*                 related to the arguments by ArithXRel) and satisfy      *)
+(*                 every helper theorem;                                   *)
 (*  kind = "comp": a component execution; the logged projections of the    *)
 (*                 populations before/after must be related by CompRel     *)
 (*                 (DoComp) and satisfy every component property.          *)
@@ -17,18 +18,21 @@ TraceInit == Init /\ l = 1
 
 FnProps == /\ FnTotal /\ PermutationClosure /\ GeneConservation /\ ArithConvex /\ SwapMovesChosen
            /\ TranslocateShape /\ TwinSwap /\ TwinTranslocate /\ MultiPointTailSwaps /\ CycleWhole
+           /\ ArithXConvex /\ ArithXEnds
 CompProps == /\ CompNoFailure /\ CompPermutationClosure /\ CompDimensionKept /\ CompRateZero
              /\ CompRateZeroReal /\ CompOffspringCount /\ CompDEFormat /\ CompGenesFromParents
-             /\ CompDEGenes /\ CompStackKept
+             /\ CompDEGenes /\ CompStackKept /\ CompOwnParameters /\ CompInvalidRejected
+             /\ CompStrengthBound /\ CompCtorVariant
 
 (* A record is first loaded into the spec variables and judged in the      *)
 (* following step on the then-current state:  loading record n+1 (or the   *)
 (* final step) is enabled only if record n, as loaded, is a step of the    *)
-(* spec: DoFn(act) with res the oracle reply, resp. DoComp(cact, cres),    *)
+(* spec: DoFn(act) with res the oracle reply (FnRel), resp. DoComp(cact,   *)
+(* cres),                                                                  *)
 (* and satisfies every property.  (Judging on the current state instead of *)
 (* primed expressions lets TLC cache lazily evaluated arguments of the     *)
 (* recursive operators; primed evaluation is exponential in their depth.)  *)
-CurOK == /\ act.op # "init" => (ValidFn(act) /\ res = ApplyFn(act) /\ FnProps)
+CurOK == /\ act.op # "init" => (ValidFn(act) /\ FnRel(act, res) /\ FnProps)
          /\ cact.c # "-" => (ValidComp(cact) /\ CompRel(cact, cres) /\ CompProps)
 
 Load == CASE Rec[l].kind = "fn"   -> act' = Rec[l].act /\ res' = Rec[l].res /\ cact' = CA0 /\ cres' = CR0
